@@ -34,8 +34,32 @@ def fsStr (fs : Fs) : String :=
     → hypotheses of the theorems evaluated on this environment (`q` in the
     quantifier, `so` set order, `kf` kernel freshness), then what `setup`
     yields and what is left after `shutdown`. -/
+def famStr : Fam → String
+  | .inet => "inet" | .inet6 => "inet6" | .unix => "unix"
+
+def opStr : SockOp → String
+  | .socket f => s!"socket:{famStr f}"
+  | .setReuseAddr => "reuseaddr=1"
+  | .setNoDelay => "nodelay=1"
+  | .bind p => s!"bind:{p}"
+  | .bindPath => "bind:path"
+  | .listen b => s!"listen:{b}"
+  | .setNonBlocking => "nonblocking"
+  | .getsockname => "getsockname"
+
+/-- `listen ops <tcp4|tcp6|unix> <port> <backlog>`: the socket calls of one listener, in order -/
+def drvOps (fam port backlog : String) : String :=
+  match port.toNat?, backlog.toNat? with
+  | some port, some backlog =>
+    let ops := if fam == "unix" then unixListenOps backlog else tcpListenOps (fam == "tcp6") port backlog
+    match runOps true ⟨false, false, false⟩ ops with
+    | .ok _ => s!"ok ops={",".intercalate (ops.map opStr)}"
+    | .error e => s!"exc {errStr e} ops={",".intercalate (ops.map opStr)}"
+  | _, _ => "bad-op"
+
 def drv (args : List String) : String :=
   match args with
+  | ["ops", fam, port, backlog] => drvOps fam port backlog
   | [u, hn, hns, port, ports, pf, pidf, hs, asg, pid] =>
     match hn.toNat?, parseNats hns, port.toNat?, parseNats ports, parseNats hs, parseNats asg, pid.toNat? with
     | some hn, some hns, some port, some ports, some hs, some asg, some pid =>
